@@ -52,7 +52,7 @@ class C18(Prop):
     REAL_VS_STUB = {'real': ['dataflows/processors/parallelize.py (all of it)', 'Flow / iterable_loader / driver'],
                     'stub': ['multiprocessing.Queue/Process', 'threading.Thread/Lock/Event', 'queue.Queue', 'os.cpu_count/getpid', 'time (virtual clock)']}
     PROBES = ['line-preempt-run', 'clock-jumped', 'source-stalled', 'rowfunc-stalled', 'consumer-stalled', 'bypass-resource', 'default-num-processors',
-              'empty-stream', 'nothing-selected', 'first-selected-late', 'workers>rows']
+              'empty-stream', 'nothing-selected', 'first-selected-late', 'workers>rows', 'two-parallelize-stages', 'join-timeout-expired']
     TIERS = {'quick': dict(runs=4000, wall=100, run_wall=60),
              'thorough': dict(runs=150000, wall=1700, run_wall=60)}
     SHRINK_FROZEN = ()
@@ -80,6 +80,8 @@ class C18(Prop):
             sc['func_stalls'] = stalls(0.3, n)
         if rng.random() < 0.2:
             sc['consumer_stalls'] = stalls(0.2, n)
+        if rng.random() < 0.12:
+            sc['two_stage'] = {'workers': rng.choice([1, 2]), 'predicate': rng.choice(['none', 'some', 'late'])}
         if sc['strategy'] == 'starve':
             sc['starve_target'] = rng.choice(['worker-1', 'worker', 'thread-1', 'thread-2', 'xfer', 'main', 'xfer:q1', 'xfer:q2'])
         return sc
@@ -92,7 +94,7 @@ class C18(Prop):
         from dataflows import Flow, parallelize
         est = 30 * (n + nw) + 60
         s = S.Sched(ctx, ctx.rng('sched'), strategy=sc.get('strategy', 'uniform'), schedule=sc.get('schedule'),
-                    step_cap=400 * (n + nw) + 4000 if not sc.get('line') else 4000 * (n + nw) + 40000,
+                    step_cap=(400 * (n + nw) + 4000 if not sc.get('line') else 4000 * (n + nw) + 40000) * (3 if sc.get('two_stage') else 1),
                     params={'est_steps': est, 'starve_target': sc.get('starve_target', 'worker')})
         S.install(s, par, cpu_count=sc.get('cpu_count'), line_preempt=bool(sc.get('line')))
         applied = {}
@@ -113,7 +115,7 @@ class C18(Prop):
         def source():
             for i in range(n):
                 ctx.count('rows_pulled')
-                yield {'_id': i, 'a': 'v%d' % i, 'c': None if i else -1}
+                yield {'_id': i, 'a': 'v%d' % i, 'c': None if i else -1, 'd': None if i else -1}
 
         def upstream(rows):
             # a row-phase step between the source and parallelize: this is what the producer thread pulls from.
@@ -150,7 +152,7 @@ class C18(Prop):
         from dataflows import update_resource
         links = []
         byp = sc.get('bypass_rows')
-        bypass_rows = [{'_id': 1000 + i, 'a': 'b%d' % i, 'c': None if i else -1} for i in range(byp or 0)]
+        bypass_rows = [{'_id': 1000 + i, 'a': 'b%d' % i, 'c': None if i else -1, 'd': None if i else -1} for i in range(byp or 0)]
         if byp is not None and sc.get('bypass_first'):
             links += [bypass_rows, update_resource(-1, name='other')]
         links += [source(), update_resource(-1, name='main')]
@@ -169,6 +171,22 @@ class C18(Prop):
             kw['predicate'] = pred
         links.append(upstream)
         links.append(parallelize(row_func, **kw))
+        two = sc.get('two_stage')
+        applied2 = {}
+        if two:
+            ctx.probe('two-parallelize-stages')
+
+            def row_func2(row):
+                applied2[row['_id']] = applied2.get(row['_id'], 0) + 1
+                ctx.log('apply2', row['_id'])
+                row['d'] = row['_id'] * 3 + 2
+            kw2 = {'num_processors': two['workers']}
+            if byp is not None:
+                kw2['resources'] = 'main'
+            p2 = predicate_fn(two['predicate'], n)
+            if p2 is not None:
+                kw2['predicate'] = p2
+            links.append(parallelize(row_func2, **kw2))
         links.append(sink)
         flow = Flow(*links)
         if n == 0:
@@ -225,7 +243,9 @@ class C18(Prop):
         exp = {}
         for i in range(n):
             sel = selected(pk, n, i)
-            exp[i] = {'_id': i, 'a': 'v%d' % i, 'c': (i * 7 + 1) if sel else (None if i else -1)}
+            exp[i] = {'_id': i, 'a': 'v%d' % i, 'c': (i * 7 + 1) if sel else (None if i else -1), 'd': None if i else -1}
+            if two and selected(two['predicate'], n, i):
+                exp[i]['d'] = i * 3 + 2
         got_ids = sorted(r['_id'] for r in got)
         if got_ids != list(range(n)):
             missing = sorted(set(range(n)) - set(got_ids))
@@ -242,6 +262,14 @@ class C18(Prop):
                 ctx.violation('applied-not-once', 'count', 'row function applied %d times to selected row %d' % (c, i))
             if not sel and c != 0:
                 ctx.violation('applied-to-unselected', 'count', 'row function applied to unselected row %d' % i)
+        if two:
+            for i in range(n):
+                sel2 = selected(two['predicate'], n, i)
+                c2 = applied2.get(i, 0)
+                if sel2 and c2 != 1:
+                    ctx.violation('applied-not-once', 'count-stage2', 'second-stage row function applied %d times to selected row %d' % (c2, i))
+                if not sel2 and c2 != 0:
+                    ctx.violation('applied-to-unselected', 'count-stage2', 'second-stage row function applied to unselected row %d' % i)
         if byp is not None:
             other = rows[names.index('other')]
             if other != bypass_rows:
